@@ -1,11 +1,12 @@
 // codecdrv: correspondence driver for package message (properties C03, C04).
 //
 // It generates API scripts from VERIF_SEED, runs them on the real message API and writes
-//   <out>.cases  - the scripts, in the input format of the extracted Coq model
-//   <out>.impl   - the implementation's observations, in the model's output format
-//   <out>.oracle - failures of the specification-level oracle (reference codec written
-//                  from the MQTT 3.1.1 specification), each a concrete failing input
-//   <out>.stats  - input distribution (JSON)
+//
+//	<out>.cases  - the scripts, in the input format of the extracted Coq model
+//	<out>.impl   - the implementation's observations, in the model's output format
+//	<out>.oracle - failures of the specification-level oracle (reference codec written
+//	               from the MQTT 3.1.1 specification), each a concrete failing input
+//	<out>.stats  - input distribution (JSON)
 package main
 
 import (
@@ -542,6 +543,9 @@ func counterValue(r *hx.Rng) uint64 {
 		return uint64(65536*(1+r.Intn(5))) - uint64(1+r.Intn(3))
 	case 3:
 		return uint64(r.Intn(100000))
+	case 4:
+		// just below a multiple of 2^32 (the high words of the counter)
+		return uint64(1+r.Intn(1000))<<32 - uint64(1+r.Intn(3))
 	default:
 		return uint64(r.Intn(50))
 	}
@@ -721,6 +725,10 @@ func (rn *runner) clientID(r *hx.Rng) []byte {
 		if r.Chance(2) {
 			b[i] = byte(r.U64())
 		}
+	}
+	if n > 0 && r.Chance(12) {
+		// the edges of the accepted character range
+		b[r.Intn(n)] = []byte{0x1f, 0x20, 0x7e, 0x7f, 0x80, 0xff, 0x00}[r.Intn(7)]
 	}
 	return b
 }
@@ -924,7 +932,7 @@ func main() {
 		}
 	}
 	// packet id counter histories: consecutive automatically numbered encodes across the wrap
-	for _, start := range []uint64{65530, 131066, 0} {
+	for _, start := range []uint64{65530, 131066, 0, 1<<32 - 6, 1<<33 - 6, 3<<32 - 6, 1<<48 - 6, 1<<61 - 6} {
 		for _, kind := range []int{3, 8, 10} {
 			var ops []hx.Group
 			switch kind {
